@@ -1,5 +1,5 @@
 #!/usr/bin/env python3
-"""tools/preseed.py [-j N] [seed ids…] — re-run every stored seeded change against the current checks, in parallel and without
+"""tools/preseed.py [-j N] [seed ids…]  |  tools/preseed.py [-j N] --refactors [ids…] — re-run every stored seeded change against the current checks, in parallel and without
 touching /repo: each change is applied in a scratch worktree of /repo's HEAD and the property's quick check runs in a private copy
 of /verif with JP_REPO pointing at that worktree. Prints DETECTED / MISSED per change and a final `missed: [...]` line."""
 import json
@@ -41,11 +41,54 @@ def one(sid):
         shutil.rmtree(copy, ignore_errors=True)
 
 
+def one_ref(rid):
+    """a stored behaviour-preserving refactoring against every check: each must stay quiet"""
+    d = os.path.join(V, "refactors", rid)
+    tag = "rr_" + rid
+    wt, copy = f"/var/tmp/{tag}", f"/var/tmp/vcopy_{tag}"
+    sh(f"git -C /repo worktree remove --force {wt}")
+    shutil.rmtree(copy, ignore_errors=True)
+    try:
+        if sh(f"git -C /repo worktree add --detach {wt} HEAD").returncode != 0:
+            return rid, "all", "INFRA worktree"
+        if sh(f"git -C {wt} apply {os.path.join(d, 'patch.diff')}").returncode != 0:
+            return rid, "all", "SKIPPED (the patch no longer applies)"
+        sh(f"rsync -a --exclude .git --exclude seeded --exclude refactors {V}/ {copy}/")
+        alarms, results = [], {}
+        for i in range(1, 21):
+            p = f"C{i:02d}"
+            c = sh(f"cd {copy} && JP_REPO={wt} ./check {p} --tier quick", timeout=3000)
+            lines = [l for l in c.stdout.splitlines() if l.startswith(("VIOLATION", "OK", "TIMEOUT", "INFRA"))]
+            results[p] = {"exit": c.returncode, "verdict": (lines[-1] if lines else c.stdout.strip()[-200:])[:200]}
+            if c.returncode != 0:
+                alarms.append(p)
+        meta = json.load(open(os.path.join(d, "meta.json")))
+        meta.setdefault("confirmed", {})
+        meta["confirmed"]["results"] = results
+        meta["confirmed"]["alarms"] = alarms
+        json.dump(meta, open(os.path.join(d, "meta.json"), "w"), indent=1, ensure_ascii=False)
+        return rid, "all", ("quiet on all 20 checks" if not alarms else "MISSED-QUIET: alarms " + ",".join(alarms))
+    finally:
+        sh(f"git -C /repo worktree remove --force {wt}")
+        shutil.rmtree(copy, ignore_errors=True)
+
+
 def main():
     args = sys.argv[1:]
     jobs = 6
     if args[:1] == ["-j"]:
         jobs, args = int(args[1]), args[2:]
+    if args[:1] == ["--refactors"]:
+        ids = args[1:] or sorted(os.listdir(os.path.join(V, "refactors")))
+        bad = []
+        with ThreadPoolExecutor(jobs) as ex:
+            for rid, _, res in ex.map(one_ref, ids):
+                print(f"{rid}: {res}", flush=True)
+                if not res.startswith("quiet"):
+                    bad.append(rid)
+        sh("git -C /repo worktree prune")
+        print("not quiet:", bad)
+        return 1 if bad else 0
     ids = args or sorted(os.listdir(os.path.join(V, "seeded")))
     missed = []
     with ThreadPoolExecutor(jobs) as ex:
